@@ -256,6 +256,16 @@ def families(bkind, ckind, rng, extra=0, layers=3):
     for g in ('none', 'false', 'true'):
         add('pack', commit([(0, 'v1'), (1, 'v1')], 1) + PUSH + commit([(0, 'v2'), (1, 'v2')], 2) + commit([(1, 'v1')], 3)
             + pack(3, g) + commit([(0, 'v1')], 4) + pack(2, g))
+    if ckind == 'temp':
+        # the demo storage's own changes are packed with garbage collection unless gc=False is passed:
+        # references that lead into the base / a root that lives in the base only
+        for g in ('none', 'true', 'false'):
+            base = commit([(0, 'v1', CUR, (1,)), (1, 'v1')], 1)
+            add('pack-gc', base + PUSH + commit([(0, 'v2', CUR, (1,))], 2) + pack(2, g) + commit([(1, 'v2')], 3))
+            add('pack-gc', base + PUSH + commit([(1, 'v2')], 2) + pack(2, g) + commit([(1, 'v1')], 3))
+            add('pack-gc', base + PUSH + commit([(1, 'v2')], 2) + commit([(1, 'v1')], 3) + pack(2, g) + commit([(0, 'v2', CUR, (1,))], 4))
+            add('pack-gc', base + PUSH + commit([(0, 'v2', CUR, (1,)), (1, 'v2')], 2) + commit([(1, 'v1')], 3) + pack(3, g)
+                + commit([(1, 'v2')], 4))
     # H. refused calls and aborts leave no trace
     add('abort', commit([(0, 'v1')], 1) + PUSH + begin(2) + store(0, 'v2') + store(1, 'v1', 0) + wrong('store') + wrong('vote')
         + wrong('finish') + wrong('abort') + wrong('checkCurrent') + (wrong('undo') if cfile else []) + [{'a': 'vote'}, {'a': 'abort'}]
